@@ -43,12 +43,45 @@ def run(ctx):
     def gen_speed(tier, rng):
         return [c for c in fr.gen_speed(tier, rng) if spd.in_domain(c)]
     import crosscut as cc
-    return adapters.simple_run(
-        ctx, [(roc, gen_roc), (spd, gen_speed)], blocks=(cc.layout_block, cc.reuse_block, cc.carrier_block),
+    out = adapters.simple_run(
+        ctx, [(roc, gen_roc), (spd, gen_speed)], blocks=(cc.layout_block, cc.reuse_block, cc.carrier_block, cc.fine_block),
         rule="rate_of_change: series n<=5 over a value alphabet x time axes with steps from {1,2,60,900,86400,172800}s "
              "(irregular mixes), datetime64 and epoch-second inputs, thresholds with rates exactly on them, length "
              "mismatches; speed: tracks with asymmetric hops, independent missing patterns in lon/lat, thresholds far "
              "from / exactly on hop speeds, n=0,1,2.., length mismatches. non-trivial = >=2 distinct flags or raises")
+    # decimal thresholds (0.3, 0.015, 0.7 units per second - not binary fractions) met EXACTLY: dx = threshold x dt is a
+    # whole number, so the real quotient dx / dt IS the threshold; a correctly rounded division returns the very float the
+    # threshold literal denotes, and equality does not flag.  (Implementation-only predicate: outside the dyadic grid of
+    # the correspondence; a rate formed as dx * (1 / dt) is rounded twice and lands one ulp off.)
+    import numpy as np
+    from ioos_qc import qartod
+    import core
+    rng = ctx["rng"]
+    dec_fail, dec_n = [], 0
+    for thr_s, dts in (("0.3", [10, 20, 30, 90, 300]), ("0.015", [200, 600, 1000]), ("0.7", [10, 30, 90]), ("0.1", [10, 30, 70]),
+                       ("1.1", [10, 20, 30, 70])):
+        thr = float(thr_s)
+        for _ in range(6 if ctx["tier"] == "quick" else 60):
+            n = rng.randint(2, 6)
+            steps = [rng.choice(dts) for _ in range(n - 1)]
+            xs, t = [float(rng.choice([0, 5, -3]))], [0]
+            from fractions import Fraction as Fr
+            for sdt in steps:
+                dx = Fr(thr_s) * sdt
+                assert dx.denominator == 1
+                xs.append(xs[-1] + rng.choice([1, -1]) * float(dx))
+                t.append(t[-1] + sdt)
+            kw = {"inp": np.array(xs), "tinp": np.array(t, dtype="int64").astype("datetime64[s]"), "threshold": thr}
+            got, _ = core.call_impl(qartod.rate_of_change_test, kw)
+            dec_n += 1
+            want = "F:" + ",".join(["1"] * n)
+            if got != want:
+                dec_fail.append({"kind": "predicate", "function": "rate_of_change_test",
+                                 "case": {"xs": xs, "t_seconds": t, "threshold": thr_s}, "impl": got, "spec": want,
+                                 "clause": "every rate equals the threshold exactly (dx = threshold x dt): equality must not flag"})
+    out["failures"] += dec_fail
+    out["evaluations"] += dec_n
+    return out
 
 
 def replay(payload):
